@@ -134,6 +134,17 @@ class Ctx:
                 self.unmodelled[n] = self.unmodelled.get(n, 0) + 1
             if p.status == "panic":
                 self._debug_assert(run, p)
+            for nt in getattr(p.machine, "notes", []) if p.machine is not None else []:
+                if nt and nt[0] == "sort-order-witness":
+                    from scen import site
+                    self.ob("R-SORTED", "sort-order:%s" % site(nt[1]).split(":")[0], nt[3] or "?", site(nt[1]), False,
+                            "the slice is sorted by an order that is not the numeric one: %s — after the sort the values are not in "
+                            "non-decreasing order for such inputs" % nt[2])
+                if nt and nt[0] == "as-cast-truncation":
+                    from scen import site, show_val
+                    self.ob("R-COUNT", "as-cast:%s:%s" % (nt[2], site(nt[1]).split(":")[0]), nt[4] or "?", site(nt[1]), False,
+                            "`as %s` truncates %s, which is not bounded by the range of %s (sample counts are u64: a count of 2^32 is reached by "
+                            "32 doubling merges): beyond it the statistic is computed from a wrapped value" % (nt[2], show_val(nt[3])[:60], nt[2]))
 
     def _debug_assert(self, run, p):
         """R-DASSERT: a path that ends in the panic of a debug_assert*! (the rules skip such paths: the
